@@ -419,6 +419,14 @@ where
         t * b + (1. - t) * a
     }
 
+    /// Mean of a centroid, clamped into the observed value range.
+    ///
+    /// `sum / count` is a rounded value and may leave `[min, max]` by an ULP (e.g. for tied or
+    /// weighted inputs).
+    fn clamped_mean(&self, c: &Centroid) -> f64 {
+        c.mean().max(self.min).min(self.max)
+    }
+
     fn quantile(&self, q: f64) -> f64 {
         // empty case
         if self.centroids.is_empty() {
@@ -431,8 +439,8 @@ where
         // left tail?
         let c_first = &self.centroids[0];
         if limit <= c_first.count * 0.5 {
-            let t = limit / (0.5 * c_first.count);
-            return Self::interpolate(self.min, c_first.mean(), t);
+            let t = (limit / (0.5 * c_first.count)).min(1.).max(0.);
+            return Self::interpolate(self.min, self.clamped_mean(c_first), t);
         }
 
         let mut cum = 0.;
@@ -443,8 +451,12 @@ where
                 let c_last = &self.centroids[i - 1];
                 cum -= 0.5 * c_last.count;
                 let delta = 0.5 * (c_last.count + c.count);
-                let t = (limit - cum) / delta;
-                return Self::interpolate(c_last.mean(), c.mean(), t);
+                // rounding may push `t` out of range by an ULP
+                let t = ((limit - cum) / delta).min(1.).max(0.);
+                let a = self.clamped_mean(c_last);
+                // rounding may swap the order of (nearly) equal means
+                let b = self.clamped_mean(c).max(a);
+                return Self::interpolate(a, b, t);
             }
             cum += c.count;
         }
@@ -453,8 +465,8 @@ where
         let c_last = &self.centroids[self.centroids.len() - 1];
         cum -= 0.5 * c_last.count;
         let delta = 0.5 * c_last.count;
-        let t = (limit - cum) / delta;
-        Self::interpolate(c_last.mean(), self.max, t)
+        let t = ((limit - cum) / delta).min(1.).max(0.);
+        Self::interpolate(self.clamped_mean(c_last), self.max, t)
     }
 
     fn cdf(&self, x: f64) -> f64 {
@@ -473,19 +485,20 @@ where
         let mut last_cum = 0.;
         for c in &self.centroids {
             let current_cum = cum + 0.5 * c.count;
-            if x < c.mean() {
-                let delta = c.mean() - last_mean;
-                let t = (x - last_mean) / delta;
+            let mean = self.clamped_mean(c);
+            if x < mean {
+                let delta = mean - last_mean;
+                let t = ((x - last_mean) / delta).min(1.).max(0.);
                 return Self::interpolate(last_cum, current_cum, t) / s;
             }
             last_cum = current_cum;
             cum += c.count;
-            last_mean = c.mean();
+            last_mean = mean;
         }
 
         if x < self.max {
             let delta = self.max - last_mean;
-            let t = (x - last_mean) / delta;
+            let t = ((x - last_mean) / delta).min(1.).max(0.);
             Self::interpolate(last_cum, s, t) / s
         } else {
             1.
